@@ -204,6 +204,8 @@ def sweeps(tier, rng):
     from fontTools.pens.ttGlyphPen import TTGlyphPen, TTGlyphPointPen
     from fontTools.pens.t2CharStringPen import T2CharStringPen
     from fontTools.pens.roundingPen import RoundingPen
+    from fontTools.pens.svgPathPen import SVGPathPen
+    from fontTools.svgLib.path import parse_path
     from fontTools.misc.transform import Transform
     n = N(tier, 400, 8000) if tier != "search" else 2000
     def glyph(rng_, k=None, **kw):
@@ -218,6 +220,14 @@ def sweeps(tier, rng):
             # record / replay
             r1 = RecordingPen(); _record(calls, r1); r2 = RecordingPen(); r1.replay(r2)
             if r2.value != r1.value: bad = "RecordingPen.replay changed the calls"
+            # SVG path text and back (path data written by SVGPathPen, read by svgLib's parser)
+            if bad is None and all(op != "curveTo" or len(a) == 3 for op, a in calls):
+                try:
+                    fcalls = [(op, tuple((float(p[0]), float(p[1])) if p is not None else None for p in a)) for op, a in calls]
+                    svp = SVGPathPen(None); _record(fcalls, svp); rsv = RecordingPen(); parse_path(svp.getCommands(), rsv)
+                    if G.canon(rsv.value) != G.canon(fcalls): bad = "SVG path text %r reads back as %r, drawn %r" % (svp.getCommands(), rsv.value, fcalls)
+                except Exception as e:
+                    bad = "SVGPathPen / parse_path raised %r on %r" % (e, calls)
             # segment -> point -> segment
             r3 = RecordingPen(); sp = SegmentToPointPen(PointToSegmentPen(r3, outputImpliedClosingLine=rng.chance(50)))
             try:
